@@ -26,7 +26,7 @@ TEXT = {
     "level_text": ("Exploration. Each evaluation is one meek_lite connection driven by a generated scenario: write sizes 1 .. 3 x 65536 "
                    "(incl. 65535/65536/65537, bursts of small writes, an oversized write followed at once by small ones), delays of 0-3 ms "
                    "and idle gaps > 100 ms, a per-request response plan (empty / partial / 65536 bytes; hold time so that writes arrive "
-                   "while a request is in flight; Content-Length, chunked, Connection: close), reader buffer sizes 0 .. 100000 with "
+                   "while a request is in flight; Content-Length, chunked, Connection: close; idle kept-alive connections closed silently by the server at once / after an idle time, never while a request is in flight), reader buffer sizes 0 .. 100000 with "
                    "pauses, front on/off, and Close gracefully, right after the last Write, concurrently with a Write, at start, "
                    "while writer and worker are blocked by back-pressure (reader resuming / draining afterwards / not reading at all), or "
                    "while the server answers every request with data without end and Read keeps draining. Checked: the request bodies in arrival order are exactly "
@@ -39,7 +39,7 @@ TEXT = {
     "level_note": ("Trusted: Go's net/http (server and client transport) over net.Pipe, the Go scheduler as the source of interleavings "
                    "(sampled, not enumerated; a failing schedule may not replay, the complete history is printed). Liveness verdicts "
                    "are bounded waiting with a bound of 4 x the client's maximum poll interval (20 s), never 'was not fast enough'. "
-                   "Response bodies > 65536 and non-200 statuses are outside the domain. In the -race build a Close that would "
+                   "Response bodies > 65536 and non-200 statuses are outside the domain. Not decided (counted): the client runs into a silently closed idle connection with more than 3000 bytes waiting - net/http re-issues a POST only if header and body fit into its 4 KiB write buffer, so the pinned client cannot survive that either. In the -race build a Close that would "
                    "overlap a Write in progress is ordered before it (counted under excluded_by_construction): the send/close "
                    "pair on the write queue is flagged by the race detector although the code recovers from it by design."),
 }
